@@ -708,6 +708,8 @@ namespace c14
                 {
                     T tmp(x);
                     v.push_back(tmp);
+                    VP_CHECK(E::get(tmp) == x, sig2("lvalue_argument_changed", "push_back"), "push_back(lvalue) left its argument as %d, it held %d", E::get(tmp),
+                             x);
                 }
                 ref.push_back(x);
                 cut(ref);
@@ -717,11 +719,34 @@ namespace c14
             case 1:
             {
                 int x = (int)s.below(10);
-                c.log("s%d.emplace(%d) ", k, x);
-                if (ref.size() >= N)
+                const bool full = ref.size() >= N;
+                if (full)
                     excess("emplace_full");
-                v.emplace_back(x);
-                ref.push_back(x);
+                if (x % 4 == 3 && !ref.empty() && !full)
+                {
+                    // an lvalue that is an element of the container itself: it is copied (the storage never moves)
+                    // and stays what it was — check() below compares every element
+                    c.log("s%d.emplace(s%d[0]) ", k, k);
+                    c.label("emplace_back_aliasing_lvalue");
+                    v.emplace_back(v[0]);
+                    ref.push_back(ref[0]);
+                }
+                else if (x & 1)
+                {
+                    // an lvalue of the element type is copied, not moved from
+                    c.log("s%d.emplace(lvalue %d) ", k, x);
+                    T tmp(x);
+                    v.emplace_back(tmp);
+                    VP_CHECK(E::get(tmp) == x, sig2("lvalue_argument_changed", "emplace_back"), "emplace_back(lvalue) left its argument as %d, it held %d",
+                             E::get(tmp), x);
+                    ref.push_back(x);
+                }
+                else
+                {
+                    c.log("s%d.emplace(%d) ", k, x);
+                    v.emplace_back(x);
+                    ref.push_back(x);
+                }
                 cut(ref);
                 check("emplace_back");
                 break;
